@@ -159,5 +159,6 @@ def extra(tier, seed):
     out.append(run_native('C19:bounded:combined-variables', 'c19_native.py', ['combined'] + args, bound=bound))
     for model in ('logit', 'nested', 'cnl'):
         out.append(run_native(f'C19:bounded:full-sampling-equals-full-model:{model}', 'c19_native.py', [f'full-{model}'] + args,
-                              bound=bound + '; every stratum sampled completely; tolerance 1e-9'))
+                              bound=bound + '; every stratum sampled completely; tolerance 1e-9'
+                              + ('; every second case prepares another context first on the same table of alternatives (other alphas, same nest names)' if model == 'cnl' else '')))
     return out
